@@ -169,7 +169,7 @@ def obs_term(u, undo_closed):
         kind = "UTcc"
     elif k == "at":
         kind = "(UAt %d %d None)" % (u["stmts"], u["meta_miss"])
-    elif k == "at_phase2":
+    elif k in ("at_phase2", "at_phase2_dup"):
         kind = "(UAtPhase2 true)" if o == "commit" else "undo_unit"
     elif k == "select":
         kind = "USelect"
